@@ -1,7 +1,11 @@
 """Shared machinery of a verification unit: extract -> lower -> splice -> assemble C -> proofs."""
 import os, re, hashlib
 from . import astx, ctx, configure
-from .cxx2c import Lowerer, Profile, Unsupported, apply_splices, StringTable
+from .cxx2c import Lowerer, Profile, Unsupported, apply_splices, StringTable, LoopMismatch
+
+# functions whose loop structure no longer matches the unit's loop contracts (restructured code): their proof is replaced by a
+# bounded search for a postcondition violation (vlib/check.py); a pass of that search is UNDECIDED, never a pass
+LOOP_MISMATCH = {}
 from .runner import Proof, ToolError
 
 REPO = configure.REPO
@@ -112,7 +116,11 @@ class Builder:
             self.need_globals.setdefault((tgt.src, tgt.extra_flags), {})[g] = rd
         b, e = astx.src_range(d)
         if spec is not None:
-            text = apply_splices(text, spec.contract, spec.loops)
+            try:
+                text = apply_splices(text, spec.contract, spec.loops)
+            except LoopMismatch as lm:
+                LOOP_MISMATCH[tgt.cname] = str(lm)
+                text = apply_splices(text, spec.contract, {})
         text = re.sub(r'/\*@(CONTRACT|LOOP\d+)@\*/\n?', '', text) if not keep_markers else text
         self.functions.append({'function': tgt.parent + '::' + tgt.name if tgt.parent else (tgt.this + '::' + tgt.name if tgt.this else tgt.name),
                                'cname': tgt.cname, 'file': tgt.rel, 'lines': [b, e], 'ast_hash': astx.node_hash(d),
@@ -121,10 +129,23 @@ class Builder:
         self.last = lw
         return text
 
-    def prototype(self, text):
-        """declaration (signature + contract) of a lowered function, for callers that use it through its contract"""
+    def prototype(self, text, keep_ensures=None):
+        """declaration (signature + contract) of a lowered function, for callers that use it through its contract.
+        keep_ensures=N keeps only the first N ensures clauses: a WEAKER view of the very contract the function is verified
+        against (dropping guarantees is sound for the caller's proof; used where the caller does not need the rest)."""
         i = text.index('\n{')
-        return text[:i] + ';\n'
+        head = text[:i]
+        if keep_ensures is not None:
+            out = []
+            k = 0
+            for line in head.split('\n'):
+                if re.match(r'\s*__CPROVER_ensures', line):
+                    k += 1
+                    if k > keep_ensures:
+                        continue
+                out.append(line)
+            head = '\n'.join(out)
+        return head + ';\n'
 
     def context(self):
         """enum constants and namespace-scope constants the lowered functions refer to, extracted from the same TUs"""
